@@ -154,7 +154,11 @@ def work(p):
         hist = gm.FuncSpec(79, "hist_family", [], "module", "plain")
         hist.params = [gm.Param("a", "normal", vals=["1", "'s'"]), gm.Param("retries", "normal", default="3", vals=["3", "None"])]
         hist.ret_vals = ["1"]
-        extra = [fam, tdf, tup, abcf] + dds + [hist]
+        # a generator whose calls have equal argument and return types and differ only in what they yield
+        yf = gm.FuncSpec(78, "yield_family", [], "module", "gen")
+        yf.params = [gm.Param("a", "normal", vals=["1"])]
+        yf.yield_vals, yf.single_yield, yf.exit = ["1", "'s'", "A()"], True, "none"
+        extra = [fam, tdf, tup, abcf] + dds + [hist, yf]
         nfixed = len(extra)
         if spec.get("collide"):
             # pinned witness of the listed finding: two functions share a parameter name and get differently shaped dicts
@@ -175,17 +179,25 @@ def work(p):
         k = spec["k"]
         plan = m.call_plan(rng, None, ncalls=(4, 12)) + [(fam, [v], {}) for v in fam.params[0].vals] + [(tdf, [v], {}) for v in tdf.params[0].vals] + [(tup, [v], {}) for v in tup.params[0].vals] + [(abcf, [v], {}) for v in abcf.params[0].vals]
         plan += [(f, [v], {}) for f in dds for v in f.params[0].vals] + [(hist, [v, w], {}) for v in hist.params[0].vals for w in hist.params[1].vals]
-        plan += [(f, [f.params[0].vals[0]], {}) for f in extra[nfixed:]]
+        plan += [(f, [f.params[0].vals[0]], {}) for f in extra[nfixed:]] + [(yf, ["1"], {})] * 3
         traces = modrun.trace_plan(tmod, path, m, plan, k)
         from monkeytype.tracing import CallTrace
 
         traces += [CallTrace(tmod.hist_family, {"a": int}, int), CallTrace(tmod.hist_family, {"a": str}, int), CallTrace(tmod.hist_family, {"a": float}, int)]
+        # traces that differ in exactly one component (return type only, yield type only)
+        traces += [CallTrace(tmod.hist_family, {"a": int}, str), CallTrace(tmod.yield_family, {"a": int}, None, bytes), CallTrace(tmod.yield_family, {"a": int}, None, float)]
         uniq = []
         seen = set()
+
+        def tkey(t):  # the harness's own notion of "distinct trace": never CallTrace.__eq__/__hash__
+            return json.dumps([t.func.__module__, t.func.__qualname__, sorted((n, RT.show(RT.to_rt(x))) for n, x in (t.arg_types or {}).items()),
+                               None if t.return_type is None else RT.show(RT.to_rt(t.return_type)), None if t.yield_type is None else RT.show(RT.to_rt(t.yield_type))])
+
         for t in traces:
-            if t not in seen:
-                seen.add(t)
+            if tkey(t) not in seen:
+                seen.add(tkey(t))
                 uniq.append(t)
+        res.count("traces_differing_only_in_yield", sum(1 for t in uniq if t.func.__name__ == "yield_family"))
         if len(uniq) > 1500:
             uniq = uniq[:1500]
         res.count("evaluations")
@@ -266,6 +278,7 @@ def run(ck):
     ck.need("variant_pairs", 60)
     ck.need("collision_witness_sets", 1)
     ck.need("tight_limit_variants", 8)
+    ck.need("traces_differing_only_in_yield", 10)
     ck.need("sets_where_union_order_differed", 3, "no pair of variants in which a union's member order actually differed")
     return ck.finish(
         rule="trace sets obtained by really tracing generated modules with wide value pools (unions of up to 8 classes incl. a multiple-"
